@@ -131,6 +131,8 @@ def main():
     _touch_all()        # first uses of the Lie API happen BEFORE the models are derived (see harness/lie.py)
     from harness import history as _history      # derivation histories in fresh interpreters (spec/DeriveHistory.tla)
     _history.run_models(run, tier, ("rdd2:strapdown",))
+    if _history.hook(run, tier, {"scaled", "mixed", "mixed2"}):      # exp_mixed / l * dt called repeatedly with the same objects (spec/LieHistory.tla, H3/H4)
+        return run.finish()
     f = build()
     if "--replay" in sys.argv:
         d = json.load(open(sys.argv[sys.argv.index("--replay") + 1]))
